@@ -96,6 +96,30 @@ CLAIMED = {
          "EVERY proper prefix of every push encoding is reported malformed; every byte string of the bound as an instruction stream; compile(disassemble(s)) = s for all scripts of <=3 tokens over named opcodes and boundary pushes.",
          "Trusted: vf/ref/scriptnum.py (Core CScriptNum / CheckMinimalPush semantics, vectors from the repo tests)."),
 }
+
+# extensions made after the seeding rounds (appended to the level text of each check)
+ADDED = {
+ "C01": "Decoy group order before every nonce derivation; the key also handed over as one list object overwritten in place between verify calls.",
+ "C02": "Decoy generators (other base point, same point on another curve); ECDH peer key as list / Point / Point of the other production curve.",
+ "C03": "L4 also: signatures with R or S >= n (Core's CheckLowS overflow rule), hash types with undefined bits, lax-DER signatures of 84 / 272 bytes embedded in the script code (FindAndDelete through PUSHDATA1 / PUSHDATA2).",
+ "C04": "Fork-id coins refuse at BOTH entry points; Bitcoin Cash closures keep signature pushes that carry the fork-id bit (no FindAndDelete); signature blobs of 76 and 256 bytes.",
+ "C05": "Histories also: an empty input set, mutate-then-re-sign, two parties each holding one input's keys in both orders, input-index collections in seven container shapes (incl. one-shot iterators).",
+ "C06": "Also one-input transactions with previous_hash := 0^32 / previous_index := 2^32-1, cosigners with different hash types, Groestlcoin units, missing spent outputs under four flag sets.",
+ "C07": "The coinbase outpoint is one deviation (meets every witness mixture); scripts of 131072 bytes; spent flag re-assigned as a bool; Mode S driver C07.history (edits by assignment / set_witness / in place, fresh-object leak check).",
+ "C08": "Depth-2 aliasing step on every round trip: the caller edits the info dictionaries it was handed, then asks again.",
+ "C09": "Text depths {0,1,127,128,255}; the depth-256 child of every depth-255 node must refuse its text form.",
+ "C10": "SEC blob handed over in a bytearray the caller overwrites afterwards (key must keep its own copy); WIF on a parseable_str shared between networks.",
+ "C11": "Excluded characters include lone surrogates and an astral character (also inserted into valid Base58Check text); checksum-leading-zero payload family; same text offered to a Groestlcoin parser first.",
+ "C12": "compile_push_data_list with tuple / iterator / generator arguments.",
+ "C13": "Mode S driver C13.history (fee after each replacement of the spent-output records, incl. one stray record); the caller reorders / empties the lists it passed to create_tx.",
+ "C14": "Proof corruptions also: one more flag byte 0x01/0x80/0xff and repeated-last-node forgeries (CVE-2012-2459 shape) for every odd level x every match set; merkle() must leave the caller's list alone; per-coin header classes.",
+ "C15": "A decoy BlockChain per unit must neither affect nor be affected; second driver C15.preload (preload_locked_blocks then deliveries); 32-byte ids configuration.",
+ "C16": "Merkleblock proofs for every subset up to n = 9 (11); depth-2 aliasing step: the caller edits the parsed dictionary, the same bytes are parsed again; networks created in a fixed order with class checks.",
+ "C17": "Verifiers also: the key's address on another network and the P2SH address built from the key's hash (both must fail); r alphabet includes the least x > n with a curve point; form feed / unicode separators / trailing spaces in armoured messages.",
+ "C18": "Extended keys with depth byte 0x7f/0x80/0xff; depth-2 aliasing step on Contract.info(); identities carry a network mark; lone-surrogate strings.",
+ "C19": "Every message also as a bytearray (same digest, buffer unchanged) in both configurations; Bloom decoy filter; two-byte-prefix address item.",
+ "C20": "Size boundary also with 252/253 inputs or outputs, 300+300, 65535/65536 outputs; Mode S driver C20.history; BTC decoy check before another coin's check.",
+}
 NOT_YET = "check not built yet (work in progress; see DESIGN.md section 5 for the planned exploration)"
 
 checks, na = [], []
@@ -105,7 +129,7 @@ for p in props:
         t, text, note = CLAIMED[i]
         checks.append(dict(property_id=i, quick_cmd="./check %s --tier quick" % i, thorough_cmd="./check %s --tier thorough" % i,
                            evidence_file="/verif/evidence/%s.json" % i, replay_cmd_template="./check %s --replay {path}" % i,
-                           engine="vf", level_claimed=dict(category="model_checking", text=text, design_ref="DESIGN.md section 5, %s" % i),
+                           engine="vf", level_claimed=dict(category="model_checking", text=text + " " + ADDED.get(i, ""), design_ref="DESIGN.md section 5, %s" % i),
                            level_note=note, technique=t))
     else:
         na.append(dict(property_id=i, reason=NOT_YET))
